@@ -117,6 +117,24 @@ add("C13",
     "Known finding D15 (L1-variant samples outside the gamut) is reported as KNOWN-FINDING.",
     "Coq proof (convexity + zonotope theorem) + exact re-computation of every sample from hooked draws by vm_compute; statistics only as supporting test", "DESIGN.md §5 C13")
 
+add("C17",
+    "(C) weak-duality theorem: a passing verdict means NO point satisfying all facet inequalities is closer to the query point than the implementation's projection (for all z). "
+    "(F) boundary hit: alpha exists, is positive, alpha*b satisfies every facet inequality and one with equality, no larger multiple stays inside; every crossing point lies on "
+    "the plane and on its segment, and conv(all-pairs crossing points) is EXACTLY conv(P) cut by the plane (both inclusions, any dimension). Tie: proj_B_to_hull outputs judged by "
+    "KKT-multiplier certificates, alpha_for_B_with_P / B_with_P compared with the exact Q model, proj_P_to_simplex outputs checked to lie on the plane and on segments of the cloud "
+    "and to contain every all-pairs crossing point in their hull (convex-weight certificates) — all in the Coq VM.",
+    TRUST + "quadprog and qhull opaque; multipliers (scipy NNLS) and convex weights (HiGHS) are untrusted certificates; facet equations from scipy ConvexHull define the instance.",
+    "Coq proof (weak duality, ray/facet algebra, slice = hull of crossings) + certificate checkers run by vm_compute", "DESIGN.md §5 C17")
+add("C18",
+    "(F, Q, any fixed direction set) mean width: non-negative, translation invariant, positively homogeneous, monotone under adding points, unchanged by centring; gamut metric: "
+    "scale invariant, 1 relative to itself, <= 1 relative to a superset; the reduced-fraction executable model equals the specification model. (F, R) Jensen-Shannon divergence: "
+    "symmetric, normalisation invariant, zero exactly for proportional inputs, within [0, 1 bit]. Tie: compute_mean_width / compute_gamut re-computed exactly with the regenerated "
+    "directions; compute_volume against shoelace polygons, simplices (det/d!), boxes, 1-D extents; JS values enclosed by one Coq Interval goal per case.",
+    TRUST + "Axioms: the standard library's real-number axioms + Classical_Prop.classic (stdlib ln/exp), as printed by Props/C18.v; the Interval tactic (checked reflexive evaluator). "
+    "numpy's random generator regenerates the directions (opaque). NOT proved, tested only: Monte-Carlo mean width ~ geometric mean width, rotation invariance, hull volume in d >= 3 "
+    "beyond simplices/boxes (qhull only witness).",
+    "Coq proof over Q and R + exact re-computation by vm_compute + Interval enclosures for ln", "DESIGN.md §5 C18")
+
 NOT_APPLICABLE = []
 ALL = ["C%02d" % i for i in range(1, 21)]
 
